@@ -361,13 +361,20 @@ def payOut (e : PEntry) (mf md : Nat) : Out :=
 def lookupS (l : List (SReq × SReply)) (q : SReq) : Option SReply :=
   (l.find? (fun x => x.1 == q)).map (·.2)
 
-/-- replies still waiting after the owner moved to `pc'` -/
-def keepServed (v : SVariant) (pc' : OPc) (served : List (SReq × SReply)) (q : SReq) : List (SReq × SReply) :=
-  if (pc'.outstanding v).isEmpty then [] else served.filter (fun x => x.1 != q)
+/-- the owner stays inside the same `wait_payment` call (only then other requests stay in flight:
+    leaving the call drops its `FuturesUnordered` and with it every other request) -/
+def sameWait : OPc → OPc → Bool
+  | .rWait _ _ _ _, .rWait _ _ _ _ => true
+  | .paying _ _ (.inWait _ _), .paying _ _ (.inWait _ _) => true
+  | _, _ => false
+
+/-- replies still waiting after the owner moved from `pc` to `pc'` -/
+def keepServed (v : SVariant) (pc pc' : OPc) (served : List (SReq × SReply)) (q : SReq) : List (SReq × SReply) :=
+  if sameWait pc pc' && !(pc'.outstanding v).isEmpty then served.filter (fun x => x.1 != q) else []
 
 /-- apply an owner continuation to the state -/
 def applyONext (v : SVariant) (s : SState) (e : PEntry) (o : Owner) (q : SReq) : ONext → SState × List Out
-  | .stay pc => ({ s with active := some (e, { pc := pc, served := keepServed v pc o.served q }) }, [])
+  | .stay pc => ({ s with active := some (e, { pc := pc, served := keepServed v o.pc pc o.served q }) }, [])
   | .pay pc mf md =>
     ({ s with active := some (e, { pc := pc, served := [] }), payRunning := true }, [payOut e mf md])
   | .finish r => ({ s with active := none }, respAll e r)
